@@ -81,6 +81,7 @@ add(tok("lsn_psi0", "lsn", SN, psi_offset=-0.764, options=dict(psi_pf_lower=0.0)
 add(tok("lsn_rev3", "lsn", SN, options=dict(reverse_current=True, reverse_Bt=True, psi_divide_twopi=True)), Q)
 add(tok("lsn_extrap", "lsn", SN, profile_grid="sep", psi_sol_norm=1.2, options=dict(extrapolate_profiles=True)), Q)
 add(tok("udn_neg", "udn", DN, sign=-1.0))
+add(tok("lsn_ny2", "lsn", SN, options=dict(ny_inner_divertor=8, ny_sol=16, ny_outer_divertor=8)), Q)
 # mirror / reversal partners (C16)
 add(tok("lsn_35", "lsn", SN, options=dict(ny_inner_divertor=3, ny_sol=8, ny_outer_divertor=5, target_outer_lower_poloidal_spacing_length=0.2, target_inner_lower_poloidal_spacing_length=0.4)), Q)
 add(tok("udn_m", "udn_m", DN, mirror=True), Q)
